@@ -138,6 +138,31 @@ CHECKS["C12"] = dict(
    note="Trusted: h5py/pytables/astropy header stubs (validated by the real round-trip traces); bounds <=2 columns per header, 6 descriptors, N<=4.",
    technique="symbolic execution of the real Python source over file models + z3; real-file round trips as conformance traces",
    ref="3/C12 and section 4")
+# what the mutation rounds added (DESIGN 7.5): appended to the level text of each check
+EXTRA = {
+ "C01": " Also decided: call histories (the prior object, or another prior with the same parameter names, served other data before), t_ref explicit / disabled / default with the epoch the property prescribes on the spec side, the harness entering through validate_prepare_data; thorough: <=5 epochs, <=3 chunk rows.",
+ "C02": " Also decided: file-path options given together with in_memory=True, and call histories (an earlier run on another library under the same file name / in the same JokerSamples object, columns re-assigned).",
+ "C03": " Also decided: the trend / offset columns against the prescribed reference epoch (explicit, disabled, default) and the same call histories as C01.",
+ "C04": " Also decided: call histories on one samples object (orbits, then wrap_K() or re-assigned columns, then orbits again) and the reference-epoch family: the epoch the samples inherit equals the one the kernel uses and the one the user prescribed, through validate_prepare_data, copy and slicing.",
+ "C05": " Also decided: 'forms' (equal seed = equal stream symbols through file name / object / in memory and several n_batches: identical generator requests and accepted rows) and 'pickle' (the helper a worker unpickles, following the pickle protocol on RVData as written, equals the parent's).",
+ "C06": " Also decided: the histories and option combinations of C02/C14 with the log-probability columns.",
+ "C07": " Also decided: one prior object used with data in two unit systems (call history).",
+ "C08": " Also decided: label orders that differ numerically and textually (integer keys of different widths, 11-12 sources) and uncertainties quoted in another unit than velocities.",
+ "C09": " Also decided: call histories on one prior (other dtype / options first), a user prior with dependent nonlinear parameters, sigma_K0 in other units.",
+ "C10": " Also decided: multi-process pools hand workers COPIES of generators (no stream position may be consumed twice), iteration order of sets forked over all orders (PYTHONHASHSEED), numpy's global bit generator restored after a failing draw.",
+ "C11": " Also decided: repeated setup_mcmc in one model context (early-return path), reference epochs on non-TCB scales and disabled.",
+ "C12": " Also decided: every contiguous-range request (start/stop in None, 0..N, steps) and reads after the same file name was rewritten in other units; thorough: 3-column headers.",
+ "C13": " Also decided: interrupt-kind faults (BaseException), the real write_table_hdf5 inside tempfile_decorator with every h5py/os operation a crash point, argument forms at the edge (path-like file names, more samples requested than held).",
+ "C14": " Also decided: budgets larger than the library, packed-array and file-name sources on the API path, call histories (same file name / object re-used).",
+ "C15": " Also decided: comparisons on possibly non-finite cells before the filter (NaN, +inf, -inf), uncertainties in another unit, tiny-scale covariances (allclose).",
+ "C16": " Also decided: concrete-length array arguments (slices of the array itself), repeated requests of the same split (call history).",
+ "C17": " Also decided: get_t0 / get_time_with_phase after re-assigning columns (history) and compared on one time scale for non-TCB epochs; ties at the median period.",
+ "C18": " Also decided: the forms in which parameters are handed over (None, empty, list, dict, single variable) and source labels of different lengths / widths.",
+ "C19": " Also decided: tables carrying further stored columns (ln_posterior).",
+}
+for _k, _v in EXTRA.items():
+    if _k in CHECKS and _v not in CHECKS[_k]["text"]:
+        CHECKS[_k]["text"] = CHECKS[_k]["text"] + _v
 NOT_YET = {}
 ALL = ["C%02d" % i for i in range(1, 20)]
 
